@@ -46,6 +46,8 @@ func ExtraSeeds() [][]byte {
 		"package x\n\n@goht T() {\n\t%p>< a\n\t%p<\n\t\t%b> c\n\t.d<> e\n\t%img/\n\t%br\n\t\\%notatag\n\t! <raw> #{s}\n\t!= s\n}\n",
 		// the last code points of the basic plane (one UTF-16 unit each) and the first beyond it (two), in fragments
 		"package x\n\nvar edge = \"\uffff\ufffe\ufffd\U00010000\" // \uffff\n\n@goht T(s string) {\n\t%p= f(\"\uffff\", s)\n\t- sep := \"\uffff\U00010000\" + s\n\t%p \uffff #{s} \U00010000 #{s}\n\t%a{title: #{s + \"\uffff\"}, k\uffff: #{s}} x #{sep}\n}\n",
+		// fragments that are empty: a `-` line with nothing behind it (twice), an output line with blanks only
+		"package x\n\n@goht T(s string) {\n\t%p a\n\t-\n\t%p b\n\t- \n\t%p= s\n\t-\n}\n",
 		// runes of two UTF-16 units at the start of a text, after a delimiter, in names and values, each with mapped
 		// fragments later on the same line; a combining sequence; a BOM inside a line
 		"package x\n\n@goht T(s string, b bool) {\n\t%p 😀 lead #{s} 𝒳 #{s}\n\t😀 #{s} and #{s}\n\t%a{title: \"😀\", href: #{s}, 𝒳: #{s}} 𝒳y #{s}\n\t%p= f(\"😀\", s)\n\t- x := \"𝒳\" + s\n\t.c😀d#i𝒳{e ? #{b}}[s] e\u0301 #{s}\n\t%p a\ufeffb #{s}\n\t:plain\n\t\t😀 #{s} 𝒳 #{s}\n}\n",
